@@ -147,10 +147,14 @@ func targetsFromGroup(tg *targetgroup.Group, cfg *config.ScrapeConfig) ([]*SDTar
 		if lbls != nil || origLabels != nil {
 			tar := scrape.NewTarget(lbls, origLabels, cfg.Params)
 			hash := targetHash(lbls, tar.URL().String())
-			if exists[hash] {
-				continue
+			// only targets that have labels are de-duplicated: dropped targets have no labels (and no URL),
+			// so they would all share one hash and only the first of a group would be kept
+			if len(lbls) > 0 {
+				if exists[hash] {
+					continue
+				}
+				exists[hash] = true
 			}
-			exists[hash] = true
 			targets = append(targets, &SDTargets{
 				Job:        cfg.JobName,
 				PromTarget: tar,
